@@ -31,7 +31,7 @@ class Arr:
     """Symbolic array.  dims: tuple of labels (None = broadcast axis).  mask: pending boolean
     selection (Poly) from a masked read.  unit: unit tag (Poly) or None when not tracked.
     The value semantics of a Quantity is "the physical quantity" (value * unit atoms)."""
-    __slots__ = ('dims', 'poly', 'mask', 'unit', 'fresh', 'dt', 'xr', 'conv')
+    __slots__ = ('dims', 'poly', 'mask', 'unit', 'fresh', 'dt', 'xr', 'conv', 'view_src')
 
     def __init__(self, dims, poly, mask=None, unit=None, fresh=False, dt=None):
         self.dims = tuple(dims)
@@ -45,6 +45,8 @@ class Arr:
         self.xr = None
         # unit conversions a bound stored into this array has been through since it was read (floating-point: U1 -> U2 -> U1 need not give the number back)
         self.conv = ()
+        # (subscript expression, {name: id of its value then}) when this value is a numpy *view* obtained by basic indexing: a store into it writes through
+        self.view_src = None
 
     @property
     def ndim(self):
@@ -580,6 +582,16 @@ class Interp:
             for c in self.repo.mro(o.cls):
                 if name in c.class_attrs:
                     return self.expr(c.class_attrs[name], {'__module__': c.module}, c.module)
+            if not name.startswith('__') and self.depth < 8:
+                dyn = self.repo.find_member(o.cls, '__getattr__')
+                if dyn is not None and dyn[0] == 'method':
+                    # attributes computed by the class's own __getattr__ (e.g. FitInfo.n_fits)
+                    try:
+                        r_ = self.call(dyn[1], [name], selfv=o, node=node)
+                    except Raised:
+                        r_ = Unk('unknown attribute %s.%s' % (o.cls.name, name), node)
+                    if not (isinstance(r_, Unk) and 'always raises' in r_.why):
+                        return r_
         return Unk('unknown attribute %s.%s' % (o.cls.name if o.cls else '?', name), node)
 
     def _holder(self, node, env, mod):
@@ -619,6 +631,35 @@ class Interp:
         while isinstance(node, ast.Subscript):
             chain_nodes.append(node)
             node = node.value
+        if isinstance(node, ast.Name) and isinstance(env.get(node.id), Arr) and env[node.id].view_src is not None and not getattr(t, '_through_view', False):
+            src, ids = env[node.id].view_src
+            if all(id(env.get(k_)) == v_ for k_, v_ in ids.items()):
+                # view[...] = value  ==  base[view's index][...] = value
+                class _Sub(ast.NodeTransformer):
+                    def visit_Name(self_, n_):
+                        return ast.copy_location(src, n_) if n_ is node else n_
+                import copy as _copy
+                t2 = _copy.copy(t)
+                chain2, cur = [], t
+                while isinstance(cur, ast.Subscript):
+                    chain2.append(cur)
+                    cur = cur.value
+                new_t = src
+                for sub_ in reversed(chain2):
+                    new_t = ast.Subscript(value=new_t, slice=sub_.slice, ctx=ast.Store())
+                    ast.copy_location(new_t, sub_)
+                new_t._through_view = True
+                self.store_sub(new_t, val, env, mod)
+                refreshed = self.expr(src, env, mod)
+                if isinstance(refreshed, Arr):
+                    refreshed.view_src = (src, {k_: id(env.get(k_)) for k_ in ids})
+                env[node.id] = refreshed
+                return
+            root = src.value
+            while isinstance(root, (ast.Subscript, ast.Attribute)):
+                root = root.value
+            if isinstance(root, ast.Name):
+                env[root.id] = Unk('possibly written through a view taken before it was rebound', t)
         h = self._holder(node, env, mod)
         if h is None:
             base = self.expr(node, env, mod)
@@ -785,6 +826,10 @@ class Interp:
             return self._wrap_resolved(r)
         if e.id in mod.globals:
             return self.expr(mod.globals[e.id], {'__module__': mod}, mod)
+        imp = mod.imports.get(e.id)
+        if imp is not None and imp[0] != 'ext' and imp[1] in self.repo.modules and imp[2] and imp[2] in self.repo.modules[imp[1]].globals:
+            other = self.repo.modules[imp[1]]              # a constant imported from another module of the package
+            return self.expr(other.globals[imp[2]], {'__module__': other}, other)
         if e.id in BUILTINS:
             return Marker('builtins.' + e.id)
         return Unk('unbound name %s' % e.id, e)
@@ -941,6 +986,8 @@ class Interp:
         if isinstance(a, str) or isinstance(b, str):
             return Unk('string arithmetic', node)
         if isinstance(a, list) and isinstance(b, list) and isinstance(op, ast.Add):
+            return a + b
+        if isinstance(a, tuple) and isinstance(b, tuple) and isinstance(op, ast.Add):
             return a + b
         if isinstance(a, (list, tuple)) and isinstance(b, (Marker, Arr)) and isinstance(op, ast.Mult):
             a = self._list_to_arr(a)
@@ -1355,7 +1402,12 @@ class Interp:
         dims += list(v.dims[ax:])
         if tuple(dims) == v.dims and poly is v.poly and mask is v.mask:
             return v         # x[:] / x[...] : a view of the same buffer (alias)
-        return Arr(dims, poly, mask, v.unit)
+        res = Arr(dims, poly, mask, v.unit)
+        res.dt, res.conv = v.dt, v.conv
+        if mask is None and all(x is None or isinstance(x, (ast.Slice, _SliceVal, Pinned, int)) or x is Ellipsis for x in vals) and isinstance(e.value, (ast.Name, ast.Attribute)):
+            # basic indexing gives a view: remember how it was obtained, so that a later store into it can be written through
+            res.view_src = (e, {n_.id: id(env.get(n_.id)) for n_ in ast.walk(e) if isinstance(n_, ast.Name)})
+        return res
 
     # ---- calls
     def callexpr(self, e, env, mod):
